@@ -86,6 +86,9 @@ def work(item):
     fn, fname, scale, fam, excl = accessors(h)[acc_idx]
     recs = load_records(df, fname, scale, h)
     zmax = h.val["ZMAX"]
+    for n, text in (df.malformed.get(fname, [])[:5] if fam != "biggs" and fname != "kissel_pe.dat" else []):
+        # a line of a shipped record file that is not a record: the library's reader stops there and silently drops everything after it
+        st.violation("malformed-record:" + fname, dict(config=config, file=fname, line=n, text=text), "every line of the shipped file is a record", text)
     if fam == "biggs":
         return work_biggs(st, config, L, h, df, zmax)
     if fam is None:
